@@ -322,6 +322,7 @@ package reflect
 //@   ensures c14_zero_outside: len(b) >= 4 && old(strLen(M, b.ptr)) == 0 && err == nil ==> !(b.ptr <= ld64(p) && ld64(p) < b.ptr + len(b))
 //@   ensures c14_view: len(b) >= 4 && 0 < old(strLen(M, b.ptr)) && old(strLen(M, b.ptr)) <= len(b) - 4 ==> err == nil && i == 4 + old(strLen(M, b.ptr))
 //@        && ld64(p) == b.ptr + 4 && ld64(p+8) == old(strLen(M, b.ptr)) && (isBin(t) ==> ld64(p+16) == old(strLen(M, b.ptr)))
+//@   ensures c10_override: err == nil ==> ld64(p+8) == old(strLen(M, b.ptr)) && (old(strLen(M, b.ptr)) == 0 && !isBin(t) ==> ld64(p) == 0)
 //@   ensures c14_hdronly: !isBin(t) ==> forall a Int :: {M[a]} p + 16 <= a && a < p + 24 ==> M[a] == old(M[a])
 
 // ---------------------------------------------------------------------------
@@ -344,8 +345,10 @@ package reflect
 //@ spec func ufsIs(p *unknownFields, n Int, offs Mem, szs Mem) bool = len(p.offs) == n
 //@     && (forall k int :: {p.offs[k].sz} {p.offs[k].off} 0 <= k && k < n ==> p.offs[k].off == offs[k] && p.offs[k].sz == szs[k])
 
+//@ const ghost $initp = Int
 //@ func (d *tDecoder) Decode(b []byte, base unsafe.Pointer, sd *structDesc, maxdepth int) (n int, err error)
-//@   ghost lvl Int
+//@   ghost lvl Int, nested Bool
+//@   requires c10_init: nested && sd.hasInitFunc ==> $initp == base
 //@   requires d != nil && spanInv(&d.s) && wfSD(sd) && base != nil && 0 <= maxdepth && len(b) <= MAXIN
 //@   requires c15_budget: maxdepth >= maxDepthLimit + 2 - 2*lvl
 //@   decreases maxdepth
@@ -364,7 +367,7 @@ package reflect
 //@   after Skip ghost $skoff = (res_err == nil ? store($skoff, $skn, i - 3) : $skoff)
 //@   after Skip ghost $sksz = (res_err == nil ? store($sksz, $skn, res_n + 3) : $sksz)
 //@   after Skip ghost $skn = (res_err == nil ? $skn + 1 : $skn)
-//@   modifies M[base : base + sdSize(sd)], M[d.s.b + d.s.p : d.s.b + d.s.n], fields(&d.s), $brk
+//@   modifies M[base : base + sdSize(sd)], M[d.s.b + d.s.p : d.s.b + d.s.n], fields(&d.s), $brk, $initp
 //@   ensures 0 <= n && n <= len(b)
 //@   ensures spanInv(&d.s) && old($brk) <= $brk
 //@   ensures maxdepth == 0 ==> err != nil && n == 0
@@ -416,6 +419,7 @@ package reflect
 //@   ensures c06_str: err == nil && t.T == tSTRING && maxdepth != 0 && old(strLen(M, b.ptr)) > 0 ==> n == 4 + old(strLen(M, b.ptr))
 //@        && ld64(p+8) == old(strLen(M, b.ptr)) && (isBin(t) ==> ld64(p+16) == old(strLen(M, b.ptr)))
 //@        && (old($brk) <= ld64(p) || (d.s.b <= ld64(p) && ld64(p) + old(strLen(M, b.ptr)) <= d.s.b + d.s.p))
+//@   ensures c10_override: err == nil && t.T == tSTRING && maxdepth != 0 ==> ld64(p+8) == old(strLen(M, b.ptr))
 //@   requires t.FixedSize > 0 ==> len(b) >= t.FixedSize
 //@   requires c15_budget: maxdepth >= maxDepthLimit + 3 - 2*lvl
 //@   decreases maxdepth
@@ -425,9 +429,11 @@ package reflect
 //@   call decodeType#1 ghost wt = t1
 //@   call decodeType#2 ghost wt = tp
 //@   call Decode ghost lvl = lvl
+//@   call Decode ghost nested = true
+//@   after InitDefault ghost $initp = p
 //@   ensures c15_zero: maxdepth == 0 ==> err == box(errDepthLimitExceeded, "*thrift.ProtocolException")
 //@   ensures c15_accept48: lvl <= 48 ==> maxdepth > 0
-//@   modifies M[p : p + slotSize(t)], M[d.s.b + d.s.p : d.s.b + d.s.n], fields(&d.s), $brk
+//@   modifies M[p : p + slotSize(t)], M[d.s.b + d.s.p : d.s.b + d.s.n], fields(&d.s), $brk, $initp
 //@   call InitDefault ghost dp = p
 //@   call InitDefault ghost sz = slotSize(t)
 //@   ensures 0 <= n && n <= len(b)
@@ -478,8 +484,9 @@ package reflect
 //@   requires len(b) <= MAXIN && b.ptr + len(b) <= $brk && (len(b) > 0 ==> b.ptr >= 65536)
 //@   requires c16_disjoint: b.ptr + len(b) <= anyPtr(v) || anyPtr(v) + anySize(v) <= b.ptr
 //@   ensures c16_input: forall a Int :: {M[a]} b.ptr <= a && a < b.ptr + len(b) ==> M[a] == old(M[a])
-//@   modifies M, $brk
+//@   modifies M, $brk, $initp
 //@   call Decode ghost lvl = 1
+//@   call Decode ghost nested = false
 //@   entry ghost $sp = 0
 //@   entry ghost $sb = 0
 //@   entry ghost $norewind = true
@@ -524,6 +531,33 @@ package reflect
 //@   ensures c04_top: n == SZS(sdFor(rvOf(v)), M, $encp)
 //@   ensures c04_ptr: rvKind(rvOf(v)) != reflect.Struct ==> $encp == anyPtr(v)
 //@   ensures c16_value: forall a Int :: {M[a]} a < old($brk) ==> M[a] == old(M[a])
+
+// --- descriptor construction (desc.go) ------------------------------------------------
+// newTType is not yet under contract (A-WF): it returns a well-formed descriptor of x.
+//@ spec uf func descOf(x *defs.Type) *tType
+//@ trusted func reflect.newTType(x *defs.Type) (t *tType)
+//@   modifies $brk, $maps
+//@   ensures t != nil && wfT(t) && t == descOf(x) && old($brk) <= $brk
+
+// final value of the default after stripping pointers (the loop of fromDefsField)
+//@ spec uf func rvStrip(v reflect.Value) reflect.Value
+//@ axiom rvStrip_def: forall v reflect.Value :: {rvStrip(v)} rvStrip(v) == (rvKind(v) == reflect.Ptr ? rvStrip(rvElemOf(v)) : v)
+
+// fromDefsField: id, offset, requiredness and options are taken over from the parsed tag; the two
+// skip flags are exactly the Thrift rules - optional and nil-able (pointer, binary, container), resp.
+// optional non-pointer with a declared default.
+//@ func (f *tField) fromDefsField(x defs.Field)
+//@   requires f != nil && x.Type != nil && 0 <= x.F
+//@   requires c10_fresh: !f.CanSkipIfDefault && f.Default == nil
+//@   requires c13_default: rvKind(rvStrip(x.Default)) != reflect.Invalid ==> rvCanAddr(rvStrip(x.Default))
+//@   modifies fields(f), $brk, $maps
+//@   panics when (x.Opts % 2 == 1) && descOf(x.Type).WT != tSTRING
+//@   ensures c12_field: f.ID == x.ID && f.Offset == x.F && f.Spec == x.Spec && f.Type == descOf(x.Type) && (f.NoCopy <==> x.Opts % 2 == 1)
+//@   ensures c10_skipnil: f.CanSkipEncodeIfNil <==> (x.Spec == defs.Optional && (f.Type.Tag == defs.T_pointer || f.Type.Tag == defs.T_binary || f.Type.T == tMAP || f.Type.T == tLIST || f.Type.T == tSET))
+//@   ensures c10_skipdefault: f.CanSkipIfDefault <==> (x.Spec == defs.Optional && f.Type.Tag != defs.T_pointer && rvKind(rvStrip(x.Default)) != reflect.Invalid)
+//@   ensures c10_default: rvKind(rvStrip(x.Default)) != reflect.Invalid ==> f.Default == rvAddr(rvStrip(x.Default)) && f.Default != nil
+//@   loop 0 invariant rvStrip(v) == rvStrip(x.Default)
+//@   loop 0 decreases rvKind(v) == reflect.Ptr ? rvDepth(v) + 1 : 0
 
 // ===========================================================================
 // ENCODER
